@@ -244,6 +244,10 @@ func (otx olvmTx) Validate(ctx *action.Context, signedTx action.SignedTx) (bool,
 	if canonical, err := tx.Marshal(); err != nil || !bytes.Equal(canonical, signedTx.Data) {
 		return false, errors.New("payload is not in its canonical encoding")
 	}
+	// an empty data field survives that round trip in two spellings ("" and null): only "" is accepted
+	if tx.Data == nil {
+		return false, errors.New("payload is not in its canonical encoding")
+	}
 
 	//validate basic signature
 	err = tx.validateSigner(ctx, signedTx)
